@@ -81,6 +81,25 @@ CHECKS['C19'] = (
     'on every generated pair (sort keys passed as ranks); the exact-equality oracle of the harness states the property directly for 20 perturbation kinds.',
     BASE_NOTE + 'KeyInjective hypothesis on the float sort key (ties skipped and counted); ECP terms compared in stored order.', '6/C19')
 
+CHECKS['C18'] = (
+    'Lean 4 theorem validateShell = none <-> ValidShell (the declarative rule list) + differential execution of the Lean validator model against '
+    'validator.validate_data on valid dictionaries and ~50 classes of single-rule mutations',
+    'Proof (on the model): validateShell_iff / validateShells_iff — the executable model of _validate_electron_shells accepts exactly the shells that '
+    'satisfy every documented rule (non-empty, tag iff l>1, distinct positive exponents, row lengths, no zero contraction, no duplicate contraction, no '
+    'unused primitive, one contraction per fused member), with reject_* corollaries. Tie: model verdict vs library verdict per element on valid data '
+    '(generated in three forms + store) and on every semantic mutation. Partial: the ECP rules are modelled and correspondence-checked but their iff is '
+    'not proved; the generic JSON-schema engine is exercised by schema mutations only.',
+    BASE_NOTE + 'jsonschema package.', '6/C18')
+CHECKS['C06'] = (
+    'Lean 4 theorems: _make_key = Python binding on every call shape of every memoised signature (decide +kernel over the signatures regenerated from '
+    'the source); the memoiser state machine returns the pure value along every schedule (induction) + differential execution against memo.py and a '
+    'reference process with memoisation off',
+    'Proof (on the model): makeKey_valid_all_shapes (complete enumeration, kernel-evaluated), key_iff_same_binding, memo_refines_pure (any number of threads, '
+    'any interleaving of lookup/compute/store micro-steps and cache toggles). Tie: model key = unpickled real key = inspect.signature.bind for every shape '
+    '(exhaustive); random sequences with toggles, scrambling of returned objects and 1..16 threads against a forked reference process. Partial: aliasing '
+    '(pickle copies) and real thread scheduling are runtime behaviour the pure model cannot exhibit; they are covered by the runs only.',
+    BASE_NOTE + 'GIL atomicity of dict operations; pickle.', '6/C06')
+
 NOT_YET = {}
 
 
